@@ -2,6 +2,7 @@ import Ruint.Lemmas.History
 import Ruint.Gen.GuardGraph
 import Ruint.Lemmas.GenCore
 import Ruint.Lemmas.GenCmp
+import Ruint.Lemmas.GenUintModCanon
 
 /-!
 # C04 — values stay canonical; `==`, `Hash`, `Ord` follow the number; ill-formed types are empty
@@ -237,5 +238,24 @@ theorem gen_mask_eq (bits : ℕ) : Ruint.Gen.mask bits = Ruint.mask bits := Ruin
 
 theorem gen_nlimbs_eq (bits : ℕ) (h : bits + 63 < 2 ^ 64) : Ruint.Gen.nlimbs bits = Ruint.nlimbs bits :=
   Ruint.GenCore.nlimbs_eq bits h
+
+/-! ### constructors and `Ord::cmp` regenerated whole (`Gen/WordsUintMod.lean`)
+
+`Uint::from_limbs` (with its `assert!`: `none` = panic), `from_limbs_unmasked` and `Ord::cmp` as the source defines them,
+translated on every run, equal the models of the theorems above. -/
+
+theorem gen_from_limbs_eq (bits : ℕ) (hN : nlimbs bits < 2 ^ 64) (l : List ℕ) (hl : l.length = nlimbs bits) :
+    Ruint.Gen.uint_from_limbs bits (nlimbs bits) l = Ruint.Canon.fromLimbs bits l :=
+  Ruint.GenUintMod.from_limbs_eq bits hN l hl
+
+theorem gen_from_limbs_unmasked_eq (bits : ℕ) (hN : nlimbs bits < 2 ^ 64) (l : List ℕ) (hl : l.length = nlimbs bits)
+    (hw : Ruint.AllLt l) :
+    Ruint.Gen.uint_from_limbs_unmasked bits (nlimbs bits) l = Ruint.Canon.fromLimbsUnmasked bits l :=
+  Ruint.GenUintMod.from_limbs_unmasked_eq bits hN l hl hw
+
+theorem gen_uint_cmp_eq (bits LIMBS : ℕ) (a b : List ℕ) (h64 : min a.length b.length < 2 ^ 64) (f : ℕ)
+    (hf : min a.length b.length < f) :
+    Ruint.Gen.uint_cmp f bits LIMBS a b = Ruint.Cmp.cmp a b :=
+  Ruint.GenUintMod.cmp_eq bits LIMBS a b h64 f hf
 
 end Ruint.C04
